@@ -154,4 +154,12 @@ PROPS = {
         ],
         "assumptions": ["shared state outside the three listed structs is found only by the race detector on the schedules that occur", "gRPC runs each request handler on its own goroutine; the harness calls the handlers directly from concurrent goroutines"],
     },
+    "C11": {
+        "trusted_base": [
+            "Model/Jobs.v: resume = run_from of the extension from the stored type on the stored travelers; the serialisation of travelers to JSON and back is NOT modelled (identity in the model): it is exercised by every view/resume of the correspondence",
+            "job_match mirrors jobstorage.JobMatch over abstract checksums; C11_search assumes checksum equality is exact (hashstructure collisions and its treatment of protobuf oneofs are exercised, not modelled)",
+            "the traversal semantics is Model/Traversal.v (tied to the engine by C01); Eval_C11 reuses C01's row comparison (exact multiset / window / unordered modes)",
+        ],
+        "assumptions": ["the graph is unchanged between submit and resume", "job ids are compared through the index of the submit that created them"],
+    },
 }
